@@ -187,6 +187,17 @@ add("C18", "exploration", "DESIGN.md §2 C18",
     "enabled, so an empty canary under the disabled setting is meaningful. Sampled.",
     "html.parser is the trusted tokenizer on both sides of the round-trip; document grammar limited to what it treats as markup")
 
+add("C14", "exploration", "DESIGN.md §2 C14",
+    "Stress with barrier-released bursts against live threading/forking server subprocesses (real sockets, real TLS) "
+    "with a differential oracle (concurrent reply == solo reply on a pristine twin), liveness / reaping census, plus a "
+    "harness-owned schedule point (reader placed inside the cache writer's window) and a seam-fidelity mode "
+    "(in-process reply == live reply)",
+    "96 (quick) / 2000 (thorough) cases: bursts of 2-32 mixed-protocol requests concentrated on few directories, the "
+    "gated writer/reader schedule, and live-vs-in-process comparisons. Interleavings are sampled, not enumerated; the "
+    "measured number of overlapping same-directory pairs is reported in the evidence.",
+    "only the cache writer's window is a controlled schedule point; other races may need interleavings the stress does "
+    "not produce; timing-sensitive oracles (reaping, thread exit) allow 5 s")
+
 NOT_APPLICABLE = []
 
 
